@@ -1,9 +1,9 @@
 /-
 Identifiers and generated names (C09).
 
-* `isKeyword`, `identBare`, `identPart`, `emitIdent`: mirror of `translate_ident_part` (sql/gen_expr.rs), `is_keyword`
-  (sql/keywords.rs) and of how sqlparser prints an `Ident` (quote char + `EscapeQuotedString`, i.e. `Model.Lit.sqlEscape`:
-  NOT plain doubling).  Tables come from `Gen/Ident`, `Gen/Keywords`, `Gen/Dialects`.
+* `isKeyword`, `identBare`, `identPart`, `emitIdent`: mirror of `translate_ident_part` (sql/gen_expr.rs: the quote character
+  of a quoted name is doubled, commit 3b64e89), `is_keyword` (sql/keywords.rs) and of how sqlparser prints an `Ident` (quote char
+  + `EscapeQuotedString`, i.e. `Model.Lit.sqlEscape`, which prints an already doubled value verbatim).  Tables come from `Gen/Ident`, `Gen/Keywords`, `Gen/Dialects`.
 * `sqlLexIdent`: reference reader of one SQL identifier (quoted with doubling, or a bare word).  Case folding: a bare word is
   folded by the database (lower case in Postgres, upper case in the standard); prqlc emits bare only `[a-z_$][a-z0-9_$]*`.
 * `genName`, `freshen`, `assignSeq`: mirror of `NameGenerator::gen` and of the two loops of `assign_names`
@@ -31,18 +31,15 @@ def isKeyword (d : Dialect) (s : Src) : Bool :=
 
 def identBare (d : Dialect) (s : Src) : Bool := !d.always_quoted && Gen.Ident.validIdent s && !isKeyword d s
 
-/-- `translate_ident_part`: the `sql_ast::Ident` (value, quote style) -/
-def identPart (d : Dialect) (s : Src) : Src × Option Char := if identBare d s then (s, none) else (s, some d.ident_quote)
+/-- `translate_ident_part`: the `sql_ast::Ident` (value, quote style); a quoted name carries its quote character doubled -/
+def identPart (d : Dialect) (s : Src) : Src × Option Char :=
+  if identBare d s then (s, none) else (Model.Lit.identValue d.ident_quote s, some d.ident_quote)
 
 /-- the text sqlparser prints for that `Ident` -/
 def emitIdent (d : Dialect) (s : Src) : Src := if identBare d s then s else Model.Lit.sqlQuoteIdent d.ident_quote s
 
 /-- reference emitter: plain doubling of the quote character -/
 def emitIdentStd (d : Dialect) (s : Src) : Src := if identBare d s then s else Quote.quote d.ident_quote s
-
-/-- the emitter after the repair "double the quote characters before building the `Ident`" -/
-def emitIdentPatched (d : Dialect) (s : Src) : Src :=
-  if identBare d s then s else Model.Lit.sqlQuoteIdent d.ident_quote (Quote.esc d.ident_quote s)
 
 /-- characters of a bare SQL word: it starts with a letter or `_` (a leading `$` is a parameter marker in SQLite and Postgres and
 no identifier for sqlparser's ANSI, MsSql, BigQuery, Postgres parsers) and goes on with letters, digits, `_`, `$` -/
